@@ -591,6 +591,22 @@ pub mod std {
     pub use ::std::path;
     pub use ::std::ffi;
     pub use ::std::sync;
+    // the parts of std that have no stand-in are the real ones
+    pub use ::std::cmp;
+    pub use ::std::convert;
+    pub use ::std::mem;
+    pub use ::std::ops;
+    pub use ::std::iter;
+    pub use ::std::option;
+    pub use ::std::result;
+    pub use ::std::collections;
+    pub use ::std::str;
+    pub use ::std::string;
+    pub use ::std::vec;
+    pub use ::std::fmt;
+    pub use ::std::num;
+    pub use ::std::marker;
+    pub use ::std::panic;
 
     /// Waiting primitives (C06 C20): no operation of the crate ever waits for time to pass or for another
     /// participant.  The stand-ins can never be called: their precondition is `false`.
@@ -1721,7 +1737,7 @@ pub mod std {
 
         /// rmdir(path).  PROTOCOL: the library never removes a directory.
         #[verifier::external_body]
-        pub fn remove_dir(p: &Path, Tracked(w): Tracked<&mut World>) -> (r: std::io::Result<()>)
+        pub fn remove_dir<P: AsRef<Path>>(p: P, Tracked(w): Tracked<&mut World>) -> (r: std::io::Result<()>)
             requires
                 old(w).inv(),
                 false,   // @L C17 C02 C15 C16:directories-are-never-removed
@@ -1733,7 +1749,7 @@ pub mod std {
 
         /// rm -r path.  PROTOCOL: the library never removes a directory.
         #[verifier::external_body]
-        pub fn remove_dir_all(p: &Path, Tracked(w): Tracked<&mut World>) -> (r: std::io::Result<()>)
+        pub fn remove_dir_all<P: AsRef<Path>>(p: P, Tracked(w): Tracked<&mut World>) -> (r: std::io::Result<()>)
             requires
                 old(w).inv(),
                 false,   // @L C17 C02 C15 C16:directories-are-never-removed
